@@ -1,0 +1,8 @@
+//go:build !verif
+// +build !verif
+
+package wal
+
+// verifWalSync reports a completed fdatasync to the verification harness.
+// Without the build tag `verif` it is an empty, inlineable stub.
+func verifWalSync(w *WAL, err error) {}
